@@ -36,6 +36,10 @@ WellFormed == UNION {{[k |-> "ar", members |-> ms, gnu |-> g, bytes |-> RenderAr
                           g \in {x \in BOOLEAN : x => FitsGnu(ms)}, v \in (IF Len(ms) <= 1 THEN Vias ELSE {"bytes"})} : ms \in Models}
               \cup {[k |-> "ar", members |-> ms, gnu |-> FALSE, bytes |-> RenderAr(ms, FALSE), via |-> v] :
                           ms \in {<<Kind(DB, 1, FALSE), Kind(<<97>>, 2, FALSE)>>, <<Kind(<<97>>, 2, FALSE), Kind(DB, 1, FALSE)>>}, v \in Vias}
+              \* two members whose 60-byte headers are byte-identical (name, times, ids, mode, size) and whose data differ
+              \cup {[k |-> "ar", members |-> ms, gnu |-> FALSE, bytes |-> RenderAr(ms, FALSE), via |-> "bytes"] :
+                          ms \in {<<Kind(<<97>>, 3, FALSE), Kind(<<98>>, 2, FALSE), [Kind(<<97>>, 3, FALSE) EXCEPT !.data = <<120, 121, 122>>]>>,
+                                  <<Kind(<<97>>, 4, FALSE), [Kind(<<97>>, 4, FALSE) EXCEPT !.data = <<119, 120, 121, 122>>]>>}}
               \* ten-digit timestamps at and beyond 2^32 (4294967296, 5656124762, 9999999999): decimal numbers of any width
               \cup {[k |-> "ar", members |-> ms, gnu |-> FALSE, bytes |-> RenderAr(ms, FALSE), via |-> "bytes"] :
                           ms \in {<<[Kind(<<97>>, 2, FALSE) EXCEPT !.mtime = t], Kind(<<98>>, 1, FALSE)>> :
